@@ -299,7 +299,7 @@ def renewShard (e : Env) (s : State) (sh : Shard) (newOrderId duration : Nat) (u
           let debt := extra - bal
           s1.setDebt sh.sp (match s1.getDebt sh.sp with | some d => d + debt | none => debt)
       let some pl := s.getPledge sh.sp | throw "coin denom mismatch"
-      let s := s.setPledge { pl with totalStoragePledged := pl.totalStoragePledged + extra }
+      let s := s.setPledge { pl with totalShardPledged := pl.totalShardPledged + extra }
       pure (s, { sh with pledge := newPledge }, extra)
     else pure (s, sh, 0) : TxM (State × Shard × Int))
   let sh := { sh with renewInfos := sh.renewInfos ++ [{ orderId := newOrderId, pledge := newPledge, duration := duration }] }
@@ -333,12 +333,9 @@ def renewOne (e : Env) (s : State) (pool : Pool) (creator msgProvider : Addr) (s
       if sh.status = ShardMigrating then loop t s chg mx else do
       let (s, c, ex) ← renewShard e s sh newO.id duration newO.unitPrice
       loop t s (chg + c) (if ex > mx then ex else mx)
-  let (s, chg, mx) ← loop shards s 0 0
+  let (s, _, mx) ← loop shards s 0 0
   let s ← extendMetaDuration s md.dataId mx
   let (s, _) ← updateMeta e s newO
-  if chg ≠ 0 then
-    let pool := { pool with totalPledged := pool.totalPledged + chg }
-    return ({ s with pool := some pool }, pool, true)
   return (s, pool, true)
 
 def saoRenew (e : Env) (s : State) (creator msgProvider : Addr) (sigValid : Bool) (sigDid : Did) (duration : Nat) (timeout : Int) (data : List Bytes) :
